@@ -438,9 +438,11 @@ func zzRunC11(r *sim.Run) {
 				_, opub = zzPriv(nkeys + 5)
 			}
 			hB.Pub, hA.Pub = opub, opub
-			hB.Ckpt = half * uint64(t.Choose("rn.ready", 2))
+			hB.Ckpt = half * uint64(t.Choose("rn.ready", 3)) / 2
 			put(nameB, zzHeader(hB))
-			put(nameA, zzHeader(hA))
+			if t.Bool("rn.with-a", 2, 3) {
+				put(nameA, zzHeader(hA))
+			}
 		case "wrong-ordinal":
 			put(zzNameB(ord+1+t.Choose("ordoff", 3), pub, bl), zzHeader(hB))
 		case "foreign-key":
@@ -467,7 +469,7 @@ func zzRunC11(r *sim.Run) {
 			put(nameB, zzHeader(hB))
 		case "bl-mismatch":
 			hB.BL = zzBLs[(t.Choose("item.bl2", 2)+1+indexOf(zzBLs, bl))%3]
-			hB.Ckpt = uint64(1) << uint(hB.BL-1)
+			hB.Ckpt = (uint64(1) << uint(hB.BL-1)) * uint64(t.Choose("blm.ready", 3)) / 2
 			put(nameB, zzHeader(hB))
 		case "truncated":
 			hB.Ckpt = half
